@@ -4,6 +4,8 @@ package main
 //   def <name> <mapped schema>                 impl: "def true" (the layout check of the model must accept it)
 //   ins <name> <id> <dbytes> <pcount> <gval>   pogs.Insert into a zeroed struct of that size -> resulting struct tree
 //   rt  <name> <id> <gval>                     pogs.Insert then pogs.Extract -> extracted value (+ Go-side comparison with the input)
+//   insp <name> <id> <strct> <gval>            message built from the tree, then pogs.Insert over it -> resulting struct tree
+//   rt2 <name> <id> <gval> <gval>              two pogs.Insert into one struct, then pogs.Extract
 //   ext <name> <id> <strct>                    message built from the tree -> pogs.Extract (+ Go-side comparison with the generated getters)
 //   gen <name> <id> <strct>                    message built from the tree -> generated getters
 
@@ -124,6 +126,53 @@ func runCase(line string) (kind, impl, class string, nontrivial bool) {
 			r += " INACTIVE-WRITTEN"
 		}
 		return kind, r, ms.name + "/ok", true
+	case "insp":
+		// Insert over a pre-populated struct (built by other means: random prior contents)
+		a := parseStruct(t)
+		v := parseValue(t, mn)
+		st := buildStruct(newSeg(), a)
+		r := doInsert(mn, st, v)
+		if r != "ok" {
+			return kind, r, ms.name + "/" + r, true
+		}
+		r += " " + exportStruct(st)
+		if xr, out := doExtract(mn, st); xr == "ok" {
+			os, _ := gvalOut(mn, out.Elem())
+			is, _ := gvalOut(mn, v.Elem())
+			if canonNil(os) != canonNil(is) {
+				r += " RTDIFF want " + is + " got " + os
+			}
+		} else {
+			r += " RTDIFF extract-" + xr
+		}
+		return kind, r, ms.name + "/ok", true
+	case "rt2":
+		// two Inserts into the same struct, then Extract: the second value must come back
+		v1 := parseValue(t, mn)
+		v2 := parseValue(t, mn)
+		sn := mn.node.StructNode()
+		st, err := capnp.NewStruct(newSeg(), capnp.ObjectSize{DataSize: capnp.Size(sn.DataWordCount()) * 8, PointerCount: sn.PointerCount()})
+		must(err)
+		if r := doInsert(mn, st, v1); r != "ok" {
+			return kind, r + "1", ms.name + "/" + r + "1", true
+		}
+		if r := doInsert(mn, st, v2); r != "ok" {
+			return kind, r, ms.name + "/" + r, true
+		}
+		r, out := doExtract(mn, st)
+		if r != "ok" {
+			return kind, r, ms.name + "/x" + r, true
+		}
+		os, inact := gvalOut(mn, out.Elem())
+		is, _ := gvalOut(mn, v2.Elem())
+		r = "ok " + os
+		if canonNil(os) != canonNil(is) {
+			r += " RTDIFF want " + is
+		}
+		if inact {
+			r += " INACTIVE-WRITTEN"
+		}
+		return kind, r, ms.name + "/ok", true
 	case "ext", "gen":
 		a := parseStruct(t)
 		st := buildStruct(newSeg(), a)
@@ -140,6 +189,9 @@ func runCase(line string) (kind, impl, class string, nontrivial bool) {
 			r += " " + os
 			if inact {
 				r += " INACTIVE-WRITTEN"
+			}
+			if unmappedNonZero(mn, out.Elem()) {
+				r += " UNMAPPED-WRITTEN"
 			}
 		}
 		// the property itself, on the implementation: pogs shows what the generated getters return
@@ -186,7 +238,7 @@ func runC19(out *Out, r *Rand, tier string, replay []string) {
 		out.Close("replay")
 		return
 	}
-	n := 60
+	n := 40
 	if tier == "thorough" {
 		n = 600
 	}
@@ -208,6 +260,9 @@ func runC19(out *Out, r *Rand, tier string, replay []string) {
 				pc += g.r.Intn(3)
 			}
 			do(fmt.Sprintf("ins %s %d %d %d %s", ms.name, root.id, db, pc, g.gstructIn(root, 0)))
+			// Insert over pre-populated structs: random prior contents, an earlier Insert
+			do(fmt.Sprintf("insp %s %d %s %s", ms.name, root.id, g.astruct(root, 0), g.gstructIn(root, 0)))
+			do(fmt.Sprintf("rt2 %s %d %s %s", ms.name, root.id, g.gstructIn(root, 0), g.gstructIn(root, 0)))
 			// (b)+(c) messages built by other means
 			a := g.astruct(root, 0)
 			do(fmt.Sprintf("ext %s %d %s", ms.name, root.id, a))
